@@ -142,7 +142,7 @@ pub fn meta(prop: &str, thorough: bool) -> Meta {
     let rule = if ["C17", "C18", "C19"].contains(&prop) {
         rule
     } else {
-        format!("{} Additional enumerated sub-spaces (counts per sub-space are in coverage.subspaces): size probes - position-sensitive patterns at operand / collection / string / path lengths {:?} (complete over the stated patterns, not over all inputs of those lengths); for C04 the composition of every operator inside every operand position of every operator.", rule, crate::alphabet::size_classes(thorough))
+        format!("{} Additional enumerated sub-spaces (counts per sub-space are in coverage.subspaces): size probes - position-sensitive patterns at operand / collection / string / path lengths {:?} (complete over the stated patterns, not over all inputs of those lengths); for C04 the composition of every operator inside every operand position of every operator. Shared probe families (spaces/sweep.rs; sub-space names say which): CLOSED enumerations - every length 1..{} of operand lists / collections / strings / key lists with one distinguished position (first, around the centre, last; all positions up to length 24), every nesting depth of one-operand operations, the first and last character of every UTF-8 lead byte, white-space blocks, digit strings of every length 1..40 and at every machine-integer limit, radix literals by digit count and with tails, every operator x rejected operand count x evaluated position, every eager operator x position x deciding neighbours; CORPORA (complete over their stated list, silent about anything outside it) - confusable string pairs, look-alike twins, near-miss operator keys, long number and float texts (a fixed linear-congruential sequence), index spellings, condition kinds, provenance forms.", rule, crate::alphabet::size_classes(thorough), if thorough {{ 2100 }} else {{ 1100 }})
     };
     Meta {
         rule,
